@@ -1339,12 +1339,16 @@ static int parse_item(struct scanner_s *scanner, cif_container_tp *container, UC
         }
     
         if (result == CIF_OK) {
-            if ((name != NULL) && (container != NULL)) {
+            if (name != NULL) {
                 assert(scanner->skip_depth <= 0);
 
                 result = OPTIONAL_CALL(scanner->handler->handle_item, (name, value, scanner->user_data), CIF_OK);
                 switch (result) {
                     case CIF_TRAVERSE_CONTINUE:
+                        if (container == NULL) {
+                            /* syntax-only mode: there is nowhere to record the value */
+                            break;
+                        }
                         /* _copy_ the value into the CIF */
                         result = cif_container_set_value(container, name, value);
                         if (result == CIF_INVALID_ITEMNAME) {
@@ -1681,7 +1685,8 @@ static int parse_loop_packets(struct scanner_s *scanner, cif_loop_tp *loop, stri
                             value = packet_values[column_index];  /* it is safe to re-use the existing value object */
 
                             /* parse the value */
-                            if ((result = parse_value(scanner, &value)) == CIF_OK) {
+                            if (((result = parse_value(scanner, &value)) == CIF_OK) && (scanner->skip_depth <= 0)) {
+                                /* items of packets or loops that are being skipped are not reported */
                                 result = OPTIONAL_CALL(scanner->handler->handle_item,
                                         (name, value, scanner->user_data), CIF_OK);
                                 switch (result) {
